@@ -363,4 +363,11 @@ func TestC03(t *testing.T) {
 	r := hx.Start(t, "C03")
 	defer r.Finish(t)
 	hx.Rapid(r, t, "update_delivery", r.N(5000, 50000), genC03, c03Prop(t, r))
+	// the handler's Notification while plugin goroutines write UPDATEs on the same connection
+	// (slow, serialised writes; C08's machinery): it reaches the wire verbatim, whole and once
+	hx.Rapid(r, t, "handler_notification_while_writing", r.N(150, 2000), func(rt *rapid.T) c08Busy {
+		c := genC08Busy(rt)
+		c.Fault = "handler"
+		return c
+	}, c08BusyProp(t, r, "handler_notification_while_writing"))
 }
